@@ -176,4 +176,4 @@ Definition isIPv4Address (s : str) : bool :=
 Definition IsIPv4 (c : cfg) (u : url) : bool :=
   match u_host u with Some h => IsSpecialScheme c u && isIPv4Address h | None => false end.
 Definition IsIPv6 (u : url) : bool :=
-  match u_host u with Some (91 :: _) => true | _ => false end.
+  match u_host u with Some (91 :: t) => has_suffix [93] (91 :: t) | _ => false end.
